@@ -90,6 +90,10 @@ func main() {
 		firstUse(*workers)
 		return
 	}
+	if *mode == "firstreg" {
+		firstRegistration(int(*seed))
+		return
+	}
 
 	fmts := []formats.Format{formats.SPDX23JSON, formats.CDX14JSON, formats.CDX15JSON}
 	const nDocs = 6
@@ -350,7 +354,6 @@ func sharedStress(seed int64, workers, iters int) {
 	fmt.Println(string(out))
 }
 
-
 // firstUse: the very first use of the reader and writer packages in this process, made by many
 // goroutines released together. Every call must return what it returns in a sequential run: a
 // registered driver for every built-in format.
@@ -400,6 +403,46 @@ func firstUse(workers int) {
 	}
 	close(start)
 	wg.Wait()
+	out, _ := json.Marshal(map[string]any{"problems": problems, "calls": calls})
+	fmt.Println(string(out))
+}
+
+// firstRegistration: the very first call a process makes into the writer or reader package is a
+// registration or a removal; whatever is initialised lazily afterwards must not undo it (every call
+// returns what it would have returned in a sequential execution: a lookup after a registration sees it).
+func firstRegistration(variant int) {
+	switch variant % 4 {
+	case 0:
+		fake := &nativefakes.FakeSerializer{}
+		writer.RegisterSerializer(formats.CDX15JSON, fake)
+		_ = writer.New()
+		if s, err := writer.GetFormatSerializer(formats.CDX15JSON); err != nil || s != native.Serializer(fake) {
+			report("a serializer registered for a built-in format as the first call of the process is not the one a later lookup returns", fmt.Sprint(err))
+		}
+		count("register-first")
+	case 1:
+		writer.UnregisterSerializer(formats.SPDX23JSON)
+		_ = writer.New()
+		if s, err := writer.GetFormatSerializer(formats.SPDX23JSON); err == nil && s != nil {
+			report("a built-in serializer removed as the first call of the process is back after a writer was constructed", string(formats.SPDX23JSON))
+		}
+		count("unregister-first")
+	case 2:
+		fake := &nativefakes.FakeUnserializer{}
+		reader.RegisterUnserializer(formats.CDX15JSON, fake)
+		_ = reader.New()
+		if u, err := reader.GetFormatUnserializer(formats.CDX15JSON); err != nil || u != native.Unserializer(fake) {
+			report("an unserializer registered for a built-in format as the first call of the process is not the one a later lookup returns", fmt.Sprint(err))
+		}
+		count("register-first-reader")
+	default:
+		reader.UnregisterUnserializer(formats.SPDX23JSON)
+		_ = reader.New()
+		if _, err := reader.GetFormatUnserializer(formats.SPDX23JSON); err == nil {
+			report("a built-in unserializer removed as the first call of the process is back after a reader was constructed", string(formats.SPDX23JSON))
+		}
+		count("unregister-first-reader")
+	}
 	out, _ := json.Marshal(map[string]any{"problems": problems, "calls": calls})
 	fmt.Println(string(out))
 }
